@@ -6,6 +6,9 @@
 cd /verif
 [ $# -eq 0 ] && set -- $(ls seeded | grep -E '^C[0-9]+-m[0-9]+$')
 HEADV=$(git -C /verif rev-parse --short HEAD)
+# (the schedule-engine checks get a smaller per-scenario budget here: a regression over some 250 trees; a seed
+# that is only reported with the full budget shows up as missed and is re-run with REGRESS_BUDGET=20)
+export VERIF_SCEN_BUDGET_S=${REGRESS_BUDGET:-6}
 for X in "$@"; do
   ID=${X%%-*}
   W=/tmp/rg-$X-$$
@@ -20,7 +23,7 @@ X,RC,NV,H=sys.argv[1:]
 p='/verif/seeded/%s/meta.json'%X
 m=json.load(open(p))
 log=open('/var/tmp/regress/%s.log'%X,errors='replace').read()
-m['regression']={"verif_commit":H,"tier":"quick","exit":int(RC),"violations":int(NV),"fingerprints":re.findall(r'fingerprint: (.*)',log)[:4]}
+m['regression']={"verif_commit":H,"tier":"quick","scenario_budget_s":int(__import__('os').environ.get('VERIF_SCEN_BUDGET_S','20')),"exit":int(RC),"violations":int(NV),"fingerprints":re.findall(r'fingerprint: (.*)',log)[:4]}
 json.dump(m,open(p,'w'),indent=1)
 PY
   echo "$X exit=$RC violations=$NV"
